@@ -215,7 +215,9 @@ func GetFingerprint(q string) string {
 			// like 12ff: this is valid hex number and a valid ident (e.g. table
 			// name).  We can't detect this; the best we can do is realize that
 			// 12ffz is not a number because of the z.
-			if (r >= '0' && r <= '9') || (r >= 'a' && r <= 'f') || (r >= 'A' && r <= 'F') || r == '.' || r == 'x' || r == '-' {
+			// A + is part of the number only as the sign of an exponent: 1e+5.
+			if (r >= '0' && r <= '9') || (r >= 'a' && r <= 'f') || (r >= 'A' && r <= 'F') || r == '.' || r == 'x' || r == '-' ||
+				(r == '+' && (q[qi-1] == 'e' || q[qi-1] == 'E')) {
 				if Debug {
 					fmt.Println("Ignore digit")
 				}
